@@ -1292,7 +1292,9 @@ Section Handlers.
           let s := insert_element_ns cns n' (adjust_foreign_attrs a') s in
           R (if sc then pop s else s)
     | KEnd n =>
-        if flag F_foreign_br_p s && tag_is n ["br"; "p"] then RT t (pop_foreign (S (length (opn s))) s) else
+        (* </br>, </p>: pop to an integration point or HTML element, then the current insertion mode (repaired in /repo;
+           F_foreign_br_p is now without effect) *)
+        if tag_is n ["br"; "p"] then let s' := pop_foreign (S (length (opn s))) s in rec (ph s') t s' else
         let fix go (fuel : nat) (idx : Z) (s : ps) : ps * option ttok :=
             match fuel with
             | O => R s
